@@ -61,6 +61,7 @@ type Input struct {
 	GsKeyIdOk bool   `json:"gsKeyIdOk"`
 	GsAlg     string `json:"gsAlg"`
 	SigMode   string `json:"sigMode"` // good | flipped | otherKey | wrongHash | emptySig
+	SigEnc    string `json:"sigEnc"`  // wire form of the signature bytes: fixed | der | derWideR | … (sigEncodings, crypto.go)
 	Chain     string `json:"chain"`   // ok | selfSigned | empty | garbage | otherKey | otherSpec
 	Gen       string `json:"gen"`     // fixed | stream | failing: the descriptor generator handed to SignBlob
 	Blob      string `json:"blob"`    // the blob a stream generator digests
@@ -197,7 +198,7 @@ func (p *plug) chainDER() [][]byte {
 
 func (p *plug) sign(data []byte) []byte {
 	ks := p.w.keys[p.in.Key]
-	return signWithMode(p.in.SigMode, ks, data)
+	return encodeSig(p.in.SigEnc, signWithMode(p.in.SigMode, ks, data))
 }
 
 func (p *plug) GenerateSignature(ctx context.Context, req *pluginfw.GenerateSignatureRequest) (*pluginfw.GenerateSignatureResponse, error) {
@@ -343,6 +344,9 @@ func runCase(c *common.Ctx, w *world, in *Input) {
 	normalise(in)
 	if in.Wrap == "" {
 		in.Wrap = "asIs"
+	}
+	if in.SigEnc == "" {
+		in.SigEnc = "fixed"
 	}
 	if in.History == nil {
 		in.History = []Step{}
@@ -504,7 +508,7 @@ func inspect(in *Input, p *plug, desc ocispec.Descriptor, sig []byte, info *sign
 	if err != nil {
 		return false, false
 	}
-	content, err := env.Content()
+	content, err := env.Verify() // what comes back verifies under its own certificate chain
 	if err != nil {
 		return false, false
 	}
@@ -585,7 +589,7 @@ var chains = []string{"selfSigned", "empty", "garbage", "otherKey", "otherSpec"}
 
 // cryptoMutation applies one non-payload deviation.
 func cryptoMutation(r *rand.Rand, in *Input) string {
-	switch k := r.Intn(13); k {
+	switch k := r.Intn(14); k {
 	case 0:
 		in.Echo = pick(r, "otherFormat", "empty", "junk")
 		return "echo"
@@ -632,6 +636,9 @@ func cryptoMutation(r *rand.Rand, in *Input) string {
 	case 11:
 		in.PluginErr = pick(r, "metadata", "describeKey", "generate")
 		return "pluginErr:" + in.PluginErr
+	case 12:
+		in.SigEnc = sigEncodings[r.Intn(len(sigEncodings))]
+		return "sigEnc:" + in.SigEnc
 	default:
 		in.Cap = pick(r, "both", "neither", "raw", "envelope")
 		return "cap:" + in.Cap
@@ -785,6 +792,69 @@ func Run(c *common.Ctx) error {
 					c.Count("gen=wrap:" + wr + "/" + f)
 					runCase(c, w, in)
 				}
+			}
+		}
+	}
+	// 1g. the WIRE FORM of the signature bytes: the same (good) signature written as a DER SEQUENCE{r,s} (what key
+	// vaults answer), forged SEQUENCEs whose integers are wider than the field / negative / zero, bytes after or
+	// missing from the SEQUENCE, padded / truncated / extended / doubled / one-octet / text-encoded octets - for
+	// both apis, both formats, all six key specs, raw-signature AND envelope plugins. EC-521 is the spec whose bit
+	// size is no multiple of 8 and whose honest integers are randomly one octet shorter: honest answers are repeated.
+	en := 0
+	for _, api := range apis {
+		for _, f := range formats {
+			for _, k := range keyNames {
+				for _, cp := range []string{"raw", "envelope", "both"} {
+					for _, enc := range sigEncodings {
+						reps := 1
+						if enc == "der" && cp != "both" {
+							reps = 2
+							if k == "ec521" {
+								reps = 6
+							}
+						}
+						en++
+						if cp != "raw" && !c.Thorough() && en%3 != 0 && enc != "der" { // quick tier: a third of the non-raw grid, rotating
+							continue
+						}
+						if cp == "both" && !c.Thorough() && k != "ec256" && k != "ec521" {
+							continue
+						}
+						for rep := 0; rep < reps; rep++ {
+							in := base(r, api, cp, f, k)
+							in.SigEnc = enc
+							if rep%2 == 1 {
+								in.Honest = true
+							}
+							c.Count("gen=sigEnc:" + enc + "/" + cp)
+							runCase(c, w, in)
+						}
+					}
+				}
+			}
+		}
+	}
+	// the other wire forms of a signature that is wrong anyway (empty, flipped, other key), and with an earlier call on
+	// the same signer value (the earlier call is answered by the same plugin, in the same wire form)
+	for _, f := range formats {
+		for ki, k := range keyNames {
+			for ei, enc := range sigEncodings {
+				if !c.Thorough() && (ki+ei)%2 == 1 {
+					continue
+				}
+				in := base(r, apis[(ki+ei)%2], "raw", f, k)
+				in.SigEnc = enc
+				in.SigMode = sigModes[(ki+ei)%len(sigModes)]
+				if in.SigMode == "otherKey" {
+					in.Chain = "otherKey"
+				}
+				c.Count("gen=sigEnc:" + enc + "+sig:" + in.SigMode)
+				runCase(c, w, in)
+				in = base(r, apis[(ki+ei)%2], "raw", f, k)
+				in.SigEnc = enc
+				in.History = []Step{{Api: apis[ei%2], Cap: pick(r, "raw", "raw", "envelope"), DkKeyIdOk: true, DkKeySpec: specOf[k], GsKeyIdOk: true, Echo: "requested", SigMode: "good"}}
+				c.Count("gen=sigEnc:" + enc + "+history")
+				runCase(c, w, in)
 			}
 		}
 	}
@@ -1122,7 +1192,7 @@ func Run(c *common.Ctx) error {
 		}
 	}
 	// 3. random combinations
-	total := 6500
+	total := 7300
 	if c.Thorough() {
 		total = 40000
 	}
@@ -1180,8 +1250,8 @@ func Run(c *common.Ctx) error {
 	c.Note("scripted plugin.SignPlugin over 2 apis x 2 formats x 6 key specs x {envelope, raw, both, neither}; "+
 		"%d payload mutation kinds (value/type changes, dropped members, annotation edits, extra members at both levels, "+
 		"alternative spellings incl. U+017F/U+212A, duplicate members, null / non-object targets, non-object documents) "+
-		"signed with real keys; payload BYTES = lead + document (compact or spaced) + trail with blanks, BOM, junk bytes and whole second "+
+		"signed with real keys; signature bytes in %d wire forms (fixed r||s / PSS, DER SEQUENCE honest and forged, padded, truncated, extended, doubled, text); payload BYTES = lead + document (compact or spaced) + trail with blanks, BOM, junk bytes and whole second "+
 		"documents before / after the first JSON value; JWS envelopes assembled by hand, COSE through go-cose; signature modes %v; chains ok,%v.",
-		numPayloadMutations, sigModes, chains)
+		numPayloadMutations, 1+len(sigEncodings), sigModes, chains)
 	return nil
 }
